@@ -12,9 +12,9 @@ theorem gBin_eq_gop (op : BinOp) : gBin op = Goml.C01.gop op := by cases op <;> 
 theorem isLogicG_gBin (op : BinOp) : isLogicG (gBin op) = Goml.C01.isLogic op := by cases op <;> rfl
 
 /-- a non-logical operator of the fragment on typed operands: a typed value or a panic -/
-theorem binop_frag {env : Env} {op : BinOp} {tl ty : Ty} {a b : Val} (hok : binOK op tl tl ty = true)
-    (hop : Goml.C01.isLogic op = false) (ha : HasTy env a tl) (hb : HasTy env b tl) :
-    (∃ v, Sem.binop op a b = .ok v ∧ HasTy env v ty) ∨ (∃ k, Sem.binop op a b = .error (.panic k)) := by
+theorem binop_frag {env : Env} {η : Hp} {op : BinOp} {tl ty : Ty} {a b : Val} (hok : binOK op tl tl ty = true)
+    (hop : Goml.C01.isLogic op = false) (ha : HasTy env η a tl) (hb : HasTy env η b tl) :
+    (∃ v, Sem.binop op a b = .ok v ∧ HasTy env η v ty) ∨ (∃ k, Sem.binop op a b = .error (.panic k)) := by
   simp only [binOK, Bool.and_eq_true] at hok
   obtain ⟨⟨_, hdom⟩, hres⟩ := hok
   have hty := scalarEq_eq hres; subst hty
@@ -31,8 +31,8 @@ theorem binop_frag {env : Env} {op : BinOp} {tl ty : Ty} {a b : Val} (hok : binO
          · left; simp [Sem.binop, hy, HasTy, binResTy]))
 
 /-- the unary operators of the fragment -/
-theorem unop_frag {env : Env} {op : UnOp} {te ty : Ty} {a : Val} (hok : unOK op te ty = true) (ha : HasTy env a te) :
-    ∃ v, Sem.unop op a = .ok v ∧ HasTy env v ty := by
+theorem unop_frag {env : Env} {η : Hp} {op : UnOp} {te ty : Ty} {a : Val} (hok : unOK op te ty = true) (ha : HasTy env η a te) :
+    ∃ v, Sem.unop op a = .ok v ∧ HasTy env η v ty := by
   cases op with
   | neg =>
     simp only [unOK, Bool.and_eq_true] at hok
